@@ -38,16 +38,17 @@ def gen_case(seed, run, tier):
     const_kind = rs.choice(["fraction", "fraction", "sympy_rational", "symbol"])
     catalysts = rs.random() < 0.25
     ordered_input = rs.random() < 0.3  # hand OrderedDicts (kept by reference) to the constructor
-    nsp = rs.randint(3, 8)
+    deep = tier == "thorough"
+    nsp = rs.randint(3, 10 if deep else 8)
     species = rs.sample(SPECIES, nsp)
-    nb = rs.randint(2, 4)
+    nb = rs.randint(2, 5 if deep else 4)
     maxcoef = rs.choice([1, 2, 3, 4, 6])
     enabled = set(["scale", "add", "sub"])
     for name, p in (("neg", 0.7), ("combo", 0.6), ("eliminate", 0.7), ("as_reactions", 0.4),
                     ("eq", 0.3), ("cancel", 0.3), ("zero", 0.4), ("selfsub", 0.4), ("set_param", 0.5)):
         if rs.random() < p:
             enabled.add(name)
-    nops = rs.randint(3, 25)
+    nops = rs.randint(3, 45 if deep else 25)
     primes = rw.sample(PRIMES, nb * 2)
     bases = []
     for i in range(nb):
